@@ -393,7 +393,7 @@ func buildCtx(c map[string]sb.V) map[string]stick.Value {
 func unwrapSafe(v stick.Value) stick.Value {
 	for i := 0; i < 64; i++ {
 		sv, ok := v.(stick.SafeValue)
-		if !ok {
+		if !ok || isNilPtr(v) {
 			break
 		}
 		v = sv.Value()
